@@ -178,15 +178,28 @@ def execute(bodies, prefix, opcode_code_objects=(), phases=None, granularity="li
         return {"results": None, "choices": sched.choices, "points": sched.points, "error": str(ex)}
     sched.current = first
     sched.baton[first].release()
+    slow = None
     if not sched.done.acquire(timeout=float(os.environ.get("VERIF_SCHED_TIMEOUT", "120"))):
+        # Not finished in time.  A deadlock stays one however long we wait; a starved machine does not: the event
+        # counter tells the two apart (it only moves while some thread runs), so keep waiting while it moves.
         stacks = []
         for tid_, fr in sys._current_frames().items():
             stacks.append(f"--- thread {tid_}\n" + "".join(traceback.format_stack(fr)[-8:]))
-        return {"results": results, "choices": sched.choices, "points": sched.points,
-                "error": "deadlock-or-timeout: no thread finished the run in time; finished=%r current=%r\n%s" % (sched.finished, sched.current, "\n".join(stacks))}
+        finished = False
+        for _ in range(int(os.environ.get("VERIF_SCHED_PATIENCE", "30"))):
+            before = (sched.events, list(sched.finished))
+            if sched.done.acquire(timeout=30):
+                finished = True
+                break
+            if (sched.events, list(sched.finished)) == before:
+                break                                   # nothing moved for 30 s: stuck
+        if not finished:
+            return {"results": results, "choices": sched.choices, "points": sched.points,
+                    "error": "deadlock-or-timeout: no thread finished the run in time; finished=%r current=%r events=%d\n%s" % (sched.finished, sched.current, sched.events, "\n".join(stacks))}
+        slow = "finished late (machine starved?): %d events" % sched.events
     for t in threads:
         t.join(timeout=5)
-    return {"results": results, "choices": sched.choices, "points": sched.points, "error": sched.error}
+    return {"results": results, "choices": sched.choices, "points": sched.points, "error": sched.error, "slow": slow}
 
 
 def run_in_fork(fn, *args):
